@@ -31,6 +31,12 @@ use check::{Found, RunReport, Tier};
 #[global_allocator]
 static GLOBAL: alloc::Counting = alloc::Counting;
 
+/// Where evidence and replay files go: VERIF_OUT when set (runs against seeded changes and mutants, whose evidence
+/// must not replace that of /repo itself), the root otherwise.
+fn out_root() -> String {
+    std::env::var("VERIF_OUT").ok().filter(|s| !s.is_empty()).unwrap_or_else(root)
+}
+
 fn root() -> String {
     std::env::var("VERIF_ROOT").unwrap_or_else(|_| "/verif".to_string())
 }
@@ -153,7 +159,7 @@ fn cmd_check(prop: &str, tier: Tier) -> ExitCode {
     for e in m.harness_errors.iter().take(3) {
         eprintln!("harness error: {e}");
     }
-    let _ = std::fs::create_dir_all(format!("{}/replays", root()));
+    let _ = std::fs::create_dir_all(format!("{}/replays", out_root()));
     for (run_index, found) in &m.found {
         let fp = found.fingerprint();
         if let Some(k) = known.iter().find(|k| k.property == found.prop && fp.starts_with(&k.fingerprint)) {
@@ -173,7 +179,7 @@ fn cmd_check(prop: &str, tier: Tier) -> ExitCode {
             continue;
         }
         let min = minimise::minimise(found, 2000);
-        let path = format!("{}/replays/{}-{}-{}-{}.json", root(), prop, seed, run_index, found.clause);
+        let path = format!("{}/replays/{}-{}-{}-{}.json", out_root(), prop, seed, run_index, found.clause);
         let doc = serde_json::json!({
             "property": min.prop, "clause": min.clause, "detail": min.detail, "seed": seed, "run_index": run_index,
             "ops_before_minimisation": found.case.ops.len(), "ops": min.case.ops.iter().map(|o| o.short()).collect::<Vec<_>>(),
@@ -192,7 +198,7 @@ fn cmd_check(prop: &str, tier: Tier) -> ExitCode {
         println!("VIOLATION property={} replay={}", prop, path);
     }
     let known_list: Vec<String> = known_hit.into_iter().collect();
-    check::write_evidence(&format!("{}/evidence", root()), spec, tier, seed, &m, violations, &known_list, props2::extra_evidence(prop, &m));
+    check::write_evidence(&format!("{}/evidence", out_root()), spec, tier, seed, &m, violations, &known_list, props2::extra_evidence(prop, &m));
     if harness_error {
         return ExitCode::from(2);
     }
